@@ -78,7 +78,23 @@ def replay(pid, path):
             r = obs[k]
             print(f"  now [{k}]: exit={r['exit']}{' TIMEOUT' if r['timeout'] else ''} out={classify.out_lines(r['out'])[:40]} err={C.strip_ansi(r['err'])[-300:]!r}")
         v = payload.get("verdict") or {}
-        if pid == "C16":
+        if payload.get("vm"):
+            # a verdict of the value-machine stage: record the run again and let TraceVMV decide
+            from . import vmv
+            prog = payload.get("prog")
+            if prog and "mods" in prog:
+                entry = prog["mods"][prog["entry"] - 1]["name"] + ".ms"
+            rec, why = vmv.record(binary, d / entry, prog=prog)
+            if rec is None:
+                print("  the run could not be recorded:", why)
+                reproduced = True
+            else:
+                rec["id"] = "replay"
+                res = vmv.validate(d / "_vmv", [rec], workers=2, timeout=600)
+                print("  TraceVMV:", "accepted" if "replay" in res["accepted"] else ("out of model" if "replay" in res["oom"] else "rejected"),
+                      res["stuck"].get("replay") or res["xlate"].get("replay") or "")
+                reproduced = "replay" not in res["accepted"] and "replay" not in res["oom"] or "replay" in res["xlate"]
+        elif pid == "C16":
             r = obs["compile"]
             reproduced = r["timeout"] or r["sig"] != 0 or r["exit"] not in (0, 1) or "panicked at" in r["err"]
         elif "exp_out" in v:
